@@ -11,6 +11,7 @@ import (
 	"time"
 
 	"github.com/TarsCloud/TarsGo/tars/util/rtimer"
+	"github.com/TarsCloud/TarsGo/tars/util/vhook"
 )
 
 // TarsClientConf is tars client side config
@@ -87,6 +88,9 @@ func (tc *TarsClient) Send(req []byte) error {
 		timerC = rtimer.After(tc.config.WriteTimeout)
 	}
 
+	if vhook.Enabled {
+		vhook.At("client.Send.enqueue", tc, req)
+	}
 	select {
 	case <-timerC:
 		return errors.New("tars client write timeout")
@@ -144,6 +148,9 @@ func (c *connection) ReConnect() (err error) {
 		}
 		c.idleTime = time.Now()
 		c.isClosed = false
+		if vhook.Enabled {
+			vhook.At("client.reconnect.dialed", c.client, c.conn)
+		}
 		connDone := make(chan bool, 1)
 		go c.recv(c.conn, connDone)
 		go c.send(c.conn, connDone)
@@ -156,18 +163,30 @@ func (c *connection) send(conn net.Conn, connDone chan bool) {
 	t := time.NewTicker(time.Second)
 	defer t.Stop()
 	for {
+		if vhook.Enabled {
+			vhook.At("client.send.top", conn)
+		}
 		select {
 		case <-connDone: // connection closed
 			return
 		default:
 		}
+		if vhook.Enabled {
+			vhook.At("client.send.pollFail", conn)
+		}
 		// get sendMsg
 		select {
 		case m = <-c.client.sendFailQueue: // Send failure queue messages first
 		default:
+			if vhook.Enabled {
+				vhook.At("client.send.beforeSelect", conn)
+			}
 			select {
 			case m = <-c.client.sendQueue: // Fetch jobs
 			case <-t.C:
+				if vhook.Enabled {
+					vhook.At("client.send.tick", conn)
+				}
 				if c.isClosed {
 					return
 				}
@@ -178,6 +197,9 @@ func (c *connection) send(conn net.Conn, connDone chan bool) {
 				}
 				continue
 			}
+		}
+		if vhook.Enabled {
+			vhook.At("client.send.dequeued", conn, m.req, m.retry)
 		}
 		atomic.AddInt32(&c.invokeNum, 1)
 		if c.client.config.WriteTimeout != 0 {
@@ -191,7 +213,13 @@ func (c *connection) send(conn net.Conn, connDone chan bool) {
 			// TODO add retry times
 			m.retry++
 			TLOG.Errorf("send request retry: %d, error: %v", m.retry, err)
+			if vhook.Enabled {
+				vhook.At("client.send.writeError", conn, m.req, err)
+			}
 			c.client.sendFailQueue <- m
+			if vhook.Enabled {
+				vhook.At("client.send.requeued", conn, m.req)
+			}
 			c.close(conn)
 			if err != net.ErrClosed {
 				return
@@ -209,6 +237,9 @@ func (c *connection) send(conn net.Conn, connDone chan bool) {
 func (c *connection) recv(conn net.Conn, connDone chan bool) {
 	defer func() {
 		connDone <- true
+		if vhook.Enabled {
+			vhook.At("client.recv.exit", conn)
+		}
 	}()
 	buffer := make([]byte, 1024*4)
 	var currBuffer []byte
@@ -225,6 +256,9 @@ func (c *connection) recv(conn net.Conn, connDone chan bool) {
 			if isNoDataError(err) {
 				continue // no data, not error
 			}
+			if vhook.Enabled {
+				vhook.At("client.recv.readError", conn, err)
+			}
 			if _, ok := err.(*net.OpError); ok {
 				TLOG.Errorf("net.OpError: %v, error: %v", conn.RemoteAddr(), err)
 				c.close(conn)
@@ -238,6 +272,9 @@ func (c *connection) recv(conn net.Conn, connDone chan bool) {
 			c.close(conn)
 			return
 		}
+		if vhook.Enabled {
+			vhook.At("client.recv.read", conn, n)
+		}
 		currBuffer = append(currBuffer, buffer[:n]...)
 		for {
 			pkgLen, status := c.client.protocol.ParsePackage(currBuffer)
@@ -249,12 +286,18 @@ func (c *connection) recv(conn net.Conn, connDone chan bool) {
 				pkg := make([]byte, pkgLen)
 				copy(pkg, currBuffer[0:pkgLen])
 				currBuffer = currBuffer[pkgLen:]
+				if vhook.Enabled {
+					vhook.At("client.recv.pkg", conn, pkg)
+				}
 				go c.client.protocol.Recv(pkg)
 				if len(currBuffer) > 0 {
 					continue
 				}
 				currBuffer = nil
 				break
+			}
+			if vhook.Enabled {
+				vhook.At("client.recv.parseError", conn)
 			}
 			TLOG.Error("parse package error")
 			c.close(conn)
@@ -267,6 +310,9 @@ func (c *connection) close(conn net.Conn) {
 	c.connLock.Lock()
 	defer c.connLock.Unlock()
 	c.isClosed = true
+	if vhook.Enabled {
+		vhook.At("client.close", c.client, conn)
+	}
 	if conn != nil {
 		_ = conn.Close()
 	}
